@@ -3,8 +3,10 @@
 package bluemonday
 
 import (
+	"bytes"
 	"io"
 	"regexp"
+	"strings"
 
 	"golang.org/x/net/html"
 )
@@ -142,4 +144,55 @@ func HarnessLoop_withBuff() {
 	p := symLoopPolicy()
 	buf := p.sanitizeWithBuff(stubReader{})
 	verifNoteInt("buflen", buf.Len())
+}
+
+// ---- C15: entry points ---------------------------------------------------------
+
+// plainWriter implements io.Writer only.
+type plainWriter struct{}
+
+func (plainWriter) Write(b []byte) (int, error) {
+	verifWrite(string(b))
+	return len(b), nil
+}
+
+// HarnessLoop_stepPlainWriter: as HarnessLoop_step with a destination that
+// does not implement WriteString (sanitize wraps it in asStringWriter).
+func HarnessLoop_stepPlainWriter() {
+	p := symLoopPolicy()
+	verifFreeze()
+	err := p.sanitize(stubReader{}, plainWriter{})
+	verifNoteBool("returned-error", err != nil)
+}
+
+// HarnessC15_entrypoints: with sanitize summarised as an uninterpreted
+// function of the input bytes (engine-side), the four entry points agree.
+func HarnessC15_entrypoints() {
+	p := NewPolicy()
+	s := nondetString("input")
+	a := p.Sanitize(s)
+	b := string(p.SanitizeBytes([]byte(s)))
+	c := p.SanitizeReader(strings.NewReader(s)).String()
+	var buf bytes.Buffer
+	err := p.SanitizeReaderToWriter(strings.NewReader(s), &buf)
+	d := buf.String()
+	verifNote("Sanitize", a)
+	verifNote("SanitizeBytes", b)
+	verifNote("SanitizeReader", c)
+	verifNote("ToWriter", d)
+	blank := strings.TrimSpace(s) == ""
+	if blank {
+		verifReach("C15-blank")
+		verifAssert(a == s, "C15-blank-Sanitize-returns-input")
+		verifAssert(b == s, "C15-blank-SanitizeBytes-returns-input")
+		return
+	}
+	verifReach("C15-nonblank")
+	verifAssert(a == b, "C15-Sanitize-equals-SanitizeBytes")
+	verifAssert(a == c, "C15-Sanitize-equals-SanitizeReader")
+	if err == nil {
+		verifAssert(a == d, "C15-Sanitize-equals-SanitizeReaderToWriter")
+	} else {
+		verifAssert(a == "" && c == "", "C15-error-gives-empty-result")
+	}
 }
